@@ -133,6 +133,7 @@ type vFSM struct {
 	snaps   int
 	restored int
 	snapGate chan struct{} // when set, Snapshot() waits for it (cooperative harnesses: a slow snapshot)
+	persistGate chan struct{} // when set, the state's Persist() waits for it (a slow write of the snapshot)
 }
 
 func (f *vFSM) Update(cmd []byte) interface{} {
@@ -148,13 +149,21 @@ func (f *vFSM) Snapshot() (FSMState, error) {
 		<-f.snapGate
 	}
 	f.snaps++
-	return vFSMState{n: len(f.updates)}, nil
+	return vFSMState{n: len(f.updates), gate: f.persistGate}, nil
 }
 func (f *vFSM) Restore(r io.Reader) error    { f.restored++; f.updates = nil; return nil }
 
-type vFSMState struct{ n int }
+type vFSMState struct {
+	n    int
+	gate chan struct{}
+}
 
-func (s vFSMState) Persist(w io.Writer) error { return nil }
+func (s vFSMState) Persist(w io.Writer) error {
+	if s.gate != nil {
+		<-s.gate
+	}
+	return nil
+}
 func (s vFSMState) Release()                  {}
 
 // ---- scripted connection ----
